@@ -43,9 +43,12 @@ func (v *sxView) isSelf(t Term) bool {
 }
 
 func (v *sxView) isEgo(t Term) bool {
+	if v.ct != nil {
+		if sel, ok := egoFieldOf(t, v.ct); ok {
+			return v.isRecv(sel.X)
+		}
+	}
 	switch x := t.(type) {
-	case TSel:
-		return v.ct != nil && x.Field == v.ct.Ptr && v.isRecv(x.X)
 	case TCall:
 		return x.Fun != nil && len(x.Args) == 0 && x.Recv != nil && v.isSelf(x.Recv) && v.c.isEgoAccessor(x.Fun)
 	}
@@ -87,11 +90,10 @@ func (v *sxView) countOf(t Term) (Term, bool) {
 			if in, ok := r.(TCall); ok && in.Fun != nil && len(in.Args) == 0 && v.c.isEgoAccessor(in.Fun) {
 				r = in.Recv
 			}
-			if s, ok := r.(TSel); ok {
-				for _, ct := range v.c.Inv().Conts {
-					if s.Field == ct.Ptr {
-						r = s.X
-					}
+			for _, ct := range v.c.Inv().Conts {
+				if s, ok := egoFieldOf(r, ct); ok {
+					r = s.X
+					break
 				}
 			}
 			return r, true
